@@ -312,7 +312,7 @@ func checkC01(c *mc.Ctx) {
 	c.Ev.Level = "model_checking"
 	c.Ev.Rule = "every Muxer history of the scenario (no state merging: the delivered sequence is a function of the whole byte stream) is executed on the real Muxer with tagged payloads, its output demuxed by the real Demuxer and compared per PID with what the history wrote; plus an exhaustive shape sweep of single WriteData calls (every payload length in the windows x header shape x adaptation field); distinct_nontrivial = distinct (operation-kind sequence / shape) classes with at least one delivered PES"
 	c.Ev.Assumptions = append(c.Ev.Assumptions,
-		"payload bytes of the histories never 0x00/0x01/0x47 (tagged, distinguishable units); the shape sweep also writes payloads made of PES start-code look-alikes (00 00 01 e0 ...) and 0x47 at every phase relative to the packet boundaries",
+		"payload bytes of the histories never 0x00/0x01/0x47 (tagged, distinguishable units); the shape sweep also writes payloads made of PES start-code look-alikes (00 00 01 e0 ...) and 0x47 at every phase relative to the packet boundaries, payloads with 0xFF at both ends, and payloads of only 0xFF / 0x00 / 0x47",
 		"PES headers carry a non-nil OptionalHeader (stream ids with optional header); HasCRC / pack header are not writable and not requested",
 		"demuxer configured with the explicit packet size 188 on a bytes.Reader (framing/reader independence is C08)")
 	// (i) histories without merging
@@ -420,7 +420,7 @@ func sweepC01(c *mc.Ctx) {
 		}
 		// payloads made of PES start-code look-alikes, at every phase relative to the packet boundaries
 		for l := 1; l <= 760; l++ {
-			for ph := 1; ph <= 9; ph++ {
+			for ph := 1; ph <= 13; ph++ {
 				shapes = append(shapes, shape{pid, l, "pts", "", ph})
 				if l%4 == 0 {
 					shapes = append(shapes, shape{pid, l, "none", "raipcr", ph})
